@@ -70,6 +70,10 @@ Definition protocol_with (want:errk -> bool) (n:nat) (p:stmt) : bool :=
 Definition protocol_ok := protocol_with is_fatal.
 Definition protocol_strict := protocol_with is_max.
 
+(* only the query half: with the query flag no effect statement is executed *)
+Definition query_safe (n:nat) (p:stmt) : bool :=
+  forallb (fun e => forallb (fun l => negb (e_query e) || negb (s_rewrote (exec e (orc_of l) p st0))) (all_bits n)) envs.
+
 (* opaque indices used by a skeleton are below n *)
 Definition cond_bound (n:nat) (c:cond) : bool := match c with COpaque k => k <? n | _ => true end.
 Fixpoint bounded (n:nat) (p:stmt) : bool :=
